@@ -1,11 +1,11 @@
 #!/bin/bash
-# refresh_sweep.sh <sweep log> [more logs...]: writes seeded/SWEEP.txt (one line per seed: reported by its own
+# refresh_sweep.sh <newest sweep log> [older logs...] (for a seed in several logs the first log given wins): writes seeded/SWEEP.txt (one line per seed: reported by its own
 # property's check or not, with the number of VIOLATION lines) from the output of tools/sweep.sh.
 cd "$(dirname "$0")/.."
 {
   echo "# every seeded change against its own property's quick check (tools/sweep.sh), from: $*"
   echo "# commit of /verif at the time of the run: $(git log --format=%h -1)   /repo: $(git -C /repo log --format=%h -1)"
-  cat "$@" | grep "^\[" | sed -E 's#replay=[^ ]*/work/#replay=work/#' | sort -u -k1,1
+  cat "$@" | grep "^\[" | sed -E 's#replay=[^ ]*/work/#replay=work/#' | sort -s -u -k1,1
   echo "# reported: $(cat "$@" | grep -c 'rc=1')   not reported: $(cat "$@" | grep -c 'rc=0')   retired: $(cat "$@" | grep -c 'retired')"
 } > seeded/SWEEP.txt
 tail -1 seeded/SWEEP.txt
